@@ -1,7 +1,7 @@
 (** C12 — malformed AML is rejected with an error, never a crash, hang or stray pointer.
     Statements only; every proof is [exact <lemma>] (Aml/LexProofs.v). *)
 From Coq Require Import NArith List.
-From FF Require Import Lib.Word Gen.Consts_device_acpi_aml Aml.Stream Aml.Lex Aml.LexProofs Aml.Tree Aml.TreeSpec Aml.Parser Aml.ParserProofs Aml.ParserProofsTop Aml.ParserTotalFirst Aml.ParserTotalConn Aml.ParserTotalTop Aml.ParserTotalNonNamed Aml.ParserTotalCalls Aml.ParserTotalReloc Aml.ParserTotalMerge Aml.ParserTotalResolve Aml.ParserTotalBase Aml.ParserTotalLex Aml.ParserTotalTree Aml.ParserTotalDefer Aml.ParserTotalDeferW Aml.ParserTotalDeferV Aml.ParserTotalTyped Aml.ParserTotalShape Aml.ParserTotalChain.
+From FF Require Import Lib.Word Gen.Consts_device_acpi_aml Aml.Stream Aml.Lex Aml.LexProofs Aml.Tree Aml.TreeSpec Aml.Parser Aml.ParserProofs Aml.ParserProofsTop Aml.ParserTotalFirst Aml.ParserTotalConn Aml.ParserTotalTop Aml.ParserTotalNonNamed Aml.ParserTotalCalls Aml.ParserTotalReloc Aml.ParserTotalMerge Aml.ParserTotalResolve Aml.ParserTotalBase Aml.ParserTotalLex Aml.ParserTotalTree Aml.ParserTotalDefer Aml.ParserTotalDeferW Aml.ParserTotalDeferV Aml.ParserTotalTyped Aml.ParserTotalShape Aml.ParserTotalChain Aml.ParserTotalConn2 Aml.ParserTotalPass2.
 Import ListNotations.
 Local Open Scope N_scope.
 
@@ -595,3 +595,31 @@ Theorem C12_parse_total_partial_nopanic_tail_pend :
     end.
 Proof. exact tail_never_panics_pend. Qed.
 Print Assumptions C12_parse_total_partial_nopanic_tail_pend.
+
+(** [parse_total_partial] (16), passes chained: EVERYTHING ParseAML does after the FIRST pass ([parse_rest2]:
+    connectNamedObjArgs(0), the counter reset, then parse_rest - exactly as in parseAML_body, lemma parseAML_body_rest2) never
+    panics from any state with [R], valid indexes, the reader and whole-parser invariants, an empty scope stack, the []byte
+    typing, the memory bound, and [SH]: live parentless ScopeBlock root, Scope-directive shape, TM2 and PEND.  New here:
+    connectNamedObjArgs PRESERVES SH (proof with an abstract invariant threaded through the pass, ParserTotalConn2.v: the pass
+    only writes names of named objects that have children, and moves the sibling that follows such an object to the end of its
+    child list - a named object with children is neither a Scope directive, nor its childless name path, nor its ScopeBlock,
+    nor one of the two plain leading children of a Method).  So the only part of ParseAML not covered by a chained no-panic
+    theorem is the step "the first pass establishes SH". *)
+Theorem C12_parse_total_partial_nopanic_rest2 :
+  forall (tbls : list (list N)) (fuel : nat) (s : pstate) (g : ghost),
+    R (p_tree s) g ->
+    (forall i o, TreeSpec.get (p_tree s) i = Some o -> o_opcode o <> opFreed -> opInfo (o_infoIndex o) <> None) ->
+    rok (p_r s) -> p_scopeStack s = [] -> Inv tbls s ->
+    SH s g ->
+    (forall i o, TreeSpec.get (p_tree s) i = Some o -> o_opcode o <> opFreed -> o_opcode o = aml_pOpIntNamePathOrMethodCall ->
+                 exists tbl sl, o_value o = Some (VBytes tbl sl)) ->
+    lp s + lp s * (8 * r_len (p_r s) + 3) + 4 <= InvalidIndex ->
+    match parse_rest2 fuel s with
+    | Ok (_, s') => exists g', R (p_tree s') g' /\
+        (forall i o, TreeSpec.get (p_tree s') i = Some o -> o_opcode o <> opFreed -> opInfo (o_infoIndex o) <> None) /\
+        pool_ok (p_tables s') (p_tree s')
+    | Panic => False
+    | OutOfFuel => True
+    end.
+Proof. exact rest2_never_panics. Qed.
+Print Assumptions C12_parse_total_partial_nopanic_rest2.
